@@ -462,6 +462,17 @@ func (m *model) adoptOrder(q []string) string {
 
 func main() {
 	r := evid.Start("C23", "model_checking")
+	if evid.RacePass() {
+		for _, sc := range sScenarios(true) {
+			var o *sObs
+			b := sBody(sc, &o)
+			for i := 0; i < evid.Pick(r, 300, 3000); i++ {
+				b()
+			}
+		}
+		return
+	}
+	runSchedules(r)
 	depth := evid.Pick(r, 8, 11)
 	s := &seqx.Search{Exec: exec, MaxDepth: depth, Stop: r.Expired,
 		OnViolation: func(h []int, v *seqx.Violation) {
@@ -483,6 +494,6 @@ func main() {
 	r.Cov["frontier_unexpanded_at_bound"] = st.Frontier
 	r.Cov["bounds"] = map[string]any{"depth": depth, "limit_configs": len(limitCfgs), "ops": len(ops), "items": len(items)}
 	r.Cov["explanation"] = "every transition executes the real Mempool (fresh instance, history replayed); bounds, byte size, sponsor counters, membership, expiry sets and the hand-out ordering rule are checked after every step; dedup key = white-box dump of the private state"
-	r.Assumptions = []string{"4 items (2 sponsors, sizes 1-2, expiries 1-3), 7 limit configurations", "one stream at a time (StartStreaming only when no stream is open, as the builder guarantees)", "a full pool or sponsor drops the new item (documented behaviour); mutual order of given-back items is unspecified"}
+	r.Assumptions = []string{"4 items (2 sponsors, sizes 1-2, expiries 1-3), 7 limit configurations", "one stream at a time (StartStreaming only when no stream is open and the previous FinishStreaming has returned)", "schedule part: 6 (thorough 8) scenarios of 2-5 threads, all interleavings of the instrumented pool's lock operations; reference = every sequential order of the same operations on the real pool, each also checked against the model", "a full pool or sponsor drops the new item (documented behaviour); mutual order of given-back items is unspecified"}
 	r.Finish()
 }
